@@ -59,6 +59,13 @@ type c15Case struct {
 	Ops  []c15Op   `json:"ops"`
 	// Foreign: an extra dialer, numbered n, exists but is NOT a member of the group; operations may name it
 	Foreign bool `json:"foreign,omitempty"`
+	// Ring: drive a bare LatenciesN instead of a group
+	Ring *c15Ring `json:"ring,omitempty"`
+}
+
+type c15Ring struct {
+	N       int     `json:"n"`
+	Samples []int64 `json:"samples"`
 }
 
 type c15Row struct { // one (dialer, type) cell of the dialer-side store
@@ -105,6 +112,7 @@ type c15Result struct {
 	Init  c15Step   `json:"init"`
 	Steps []c15Step `json:"steps"`
 	Panic string    `json:"panic,omitempty"`
+	Ring  [][4]int64 `json:"ring,omitempty"` // after 0,1,2,.. appends: hasLast, LastLatency, hasAvg, AvgLatency
 }
 
 type c15Noop struct{}
@@ -251,6 +259,25 @@ func c15Run(cs c15Case) (res c15Result) {
 			res.Panic = fmt.Sprint(r)
 		}
 	}()
+	if cs.Ring != nil {
+		ln := dialer.NewLatenciesN(cs.Ring.N)
+		obs := func() [4]int64 {
+			var o [4]int64
+			if l, ok := ln.LastLatency(); ok {
+				o[0], o[1] = 1, int64(l)
+			}
+			if a, ok := ln.AvgLatency(); ok {
+				o[2], o[3] = 1, int64(a)
+			}
+			return o
+		}
+		res.Ring = append(res.Ring, obs())
+		for _, x := range cs.Ring.Samples {
+			ln.AppendLatency(time.Duration(x))
+			res.Ring = append(res.Ring, obs())
+		}
+		return res
+	}
 	lg := logrus.New()
 	lg.SetOutput(io.Discard)
 	lg.SetLevel(logrus.ErrorLevel)
